@@ -70,10 +70,13 @@ CLAIMED = {
     "C14": ("differential monitor: real planners vs an exhaustive reference search (vmon/brute.py) on tiny generated planning instances (direct schedule() calls)",
             "held on the K enumerable instances (<=4 offered tasks, <=2 workers, <=2 strategies, deadlines within 10us, grid 1-3) for ILP goodput optimality and TetriSched plan maximality",
             "DESIGN.md 4/C14", "Trusted base: the reference search and its statement of the planners' time conventions (see evidence assumptions). Solver gap cannot hide one task/graph at these sizes (asserted per instance)."),
+    "C20": ("sanitizer build (ASan + UBSan, g++) of the real C++ library with a stand-alone driver; validity oracle over populateResults() for many solutions per generated model (real + hostile objectives), model optimum vs brute-force optimum of the expression",
+            "held on the K generated STRL DAGs x solutions judged, in six classes of discretisation / pass configuration, apart from the listed known findings; no sanitizer report",
+            "DESIGN.md 4/C20", "Trusted base: the reference semantics in vmon/strl/oracle.py, gurobipy as the MILP solver, the sequential TBB shim (no parallel parse, so data races are out of reach). Small trees only (<= ~8 placement options)."),
 }
 
 _WIP = "check not built yet in this session; planned with the same technique, see DESIGN.md section 4"
-NOT_YET = {p: _WIP for p in ["C20"]}
+NOT_YET = {}
 
 
 def build():
